@@ -424,3 +424,133 @@ pattern (GGGCAATCCTGAGCCAG# reported on gggcaatcctgagccaT with 1 error, where th
 		},
 	})
 }
+
+func init() {
+	register(&Rule{
+		ID: "LPR", Props: []string{"C10"}, Min: 1,
+		Doc: `"its reported error count equals the edit distance between the pattern and that span": in the end-gap-free aligner LocatePatternFunc the first row — the pattern positions lying before the first
+symbol of the fragment, which are deleted — is the left move of the recurrence applied from the corner: the cell of column j holds (j+1) times the cost of a gap, that cost being the constant the recurrence adds
+for a gap (x := buffer[…] - 1). Read as an affine form of j, the value stored in the row -1 has the gap cost both as coefficient of j and as constant. With -j instead of -j-1 a pattern overhanging
+the beginning of the fragment by k bases is charged k-1 errors: the reported count is below the edit distance of the reported span (a primer truncated by the start of the read).`,
+		Run: func(c *Ctx, s *Sink) {
+			fd, p := c.FindFunc("pkg/obialign", "LocatePatternFunc")
+			key := "pkg/obialign.LocatePatternFunc:first-row-is-the-left-move-from-the-corner"
+			if fd == nil {
+				s.Undecided(nil, key, 0, "function not found")
+				return
+			}
+			info := p.TypesInfo
+			// the gap cost of the recurrence: x := buffer[…] - c  (the smallest such constant met: 1)
+			gap := int64(0)
+			ast.Inspect(fd.Body, func(n ast.Node) bool {
+				if as, ok := n.(*ast.AssignStmt); ok && as.Tok == token.DEFINE && len(as.Lhs) == 1 && len(as.Rhs) == 1 {
+					if _, ok := as.Lhs[0].(*ast.Ident); ok && gap == 0 {
+						if b, ok := ast.Unparen(as.Rhs[0]).(*ast.BinaryExpr); ok && b.Op == token.SUB {
+							if v, isC := constInt(info, b.Y); isC {
+								if _, isIx := ast.Unparen(b.X).(*ast.IndexExpr); isIx {
+									gap = -v
+								}
+							}
+						}
+					}
+				}
+				return true
+			})
+			if gap == 0 {
+				s.Undecided(nil, key, fd.Pos(), "the cost of a left move (left := buffer[…] - c) was not found")
+				return
+			}
+			// the first row: inside a for loop over j, an assignment buffer[idx] = <affine in j> that is not a constant
+			var found bool
+			ast.Inspect(fd.Body, func(n ast.Node) bool {
+				fs, ok := n.(*ast.ForStmt)
+				var loopVar types.Object
+				var body *ast.BlockStmt
+				if ok {
+					if init, ok := fs.Init.(*ast.AssignStmt); ok && len(init.Lhs) == 1 {
+						if id, ok := init.Lhs[0].(*ast.Ident); ok {
+							loopVar = info.ObjectOf(id)
+						}
+					}
+					body = fs.Body
+				} else if rs, ok := n.(*ast.RangeStmt); ok && rs.Key != nil && rs.Value == nil {
+					if id, ok := rs.Key.(*ast.Ident); ok {
+						loopVar = info.ObjectOf(id)
+					}
+					body = rs.Body
+				}
+				if loopVar == nil || body == nil || found {
+					return true
+				}
+				ast.Inspect(body, func(m ast.Node) bool {
+					as, ok := m.(*ast.AssignStmt)
+					if !ok || as.Tok != token.ASSIGN || len(as.Lhs) != 1 || len(as.Rhs) != 1 || found {
+						return true
+					}
+					if _, isIx := as.Lhs[0].(*ast.IndexExpr); !isIx || !mentionsVar(info, as.Rhs[0], loopVar) {
+						return true
+					}
+					if t := info.TypeOf(as.Rhs[0]); t == nil || t.String() != "int" {
+						return true
+					}
+					// value at j = 0 and j = 1 by substitution
+					eval := func(j int64) (int64, bool) {
+						var ev func(e ast.Expr) (int64, bool)
+						ev = func(e ast.Expr) (int64, bool) {
+							e = ast.Unparen(e)
+							if v, isC := constInt(info, e); isC {
+								return v, true
+							}
+							switch x := e.(type) {
+							case *ast.Ident:
+								if info.ObjectOf(x) == loopVar {
+									return j, true
+								}
+							case *ast.UnaryExpr:
+								if v, ok := ev(x.X); ok {
+									switch x.Op {
+									case token.SUB:
+										return -v, true
+									case token.ADD:
+										return v, true
+									}
+								}
+							case *ast.BinaryExpr:
+								a, ok1 := ev(x.X)
+								b, ok2 := ev(x.Y)
+								if ok1 && ok2 {
+									switch x.Op {
+									case token.ADD:
+										return a + b, true
+									case token.SUB:
+										return a - b, true
+									case token.MUL:
+										return a * b, true
+									}
+								}
+							}
+							return 0, false
+						}
+						return ev(as.Rhs[0])
+					}
+					v0, ok0 := eval(0)
+					v1, ok1 := eval(1)
+					if !ok0 || !ok1 {
+						return true
+					}
+					found = true
+					if v0 == gap && v1 == 2*gap {
+						s.Pass(nil, key, as.Pos(), fmt.Sprintf("column j of the first row holds (j+1) gaps of cost %d (%s)", gap, types.ExprString(as.Rhs[0])))
+					} else {
+						s.Fail(nil, key, as.Pos(), fmt.Sprintf("the first row stores %s: %d for the column 0 and %d for the column 1, where the recurrence charges %d for each pattern position deleted before the fragment (%d and %d): a pattern overhanging the beginning of the fragment by k bases is charged k-1 errors — the reported count is below the edit distance of the reported span", types.ExprString(as.Rhs[0]), v0, v1, gap, gap, 2*gap))
+					}
+					return true
+				})
+				return true
+			})
+			if !found {
+				s.Undecided(nil, key, fd.Pos(), "the initialisation of the first row (a store affine in the loop variable) was not found")
+			}
+		},
+	})
+}
